@@ -170,6 +170,11 @@ structure CdsCfg (γ : Type) where
   pathA : γ → List Char
   pathB : γ → List Char
   repaired : Bool
+  /-- `len(tuple(self.scan_chunk_relative_codon_locations()))`: codon locations inside the chunk -/
+  chunkCodons : γ → Nat
+  /-- `len(self.chromosome_codon_locations)`: codons of the whole CDS; differs from `chunkCodons` when the sequence
+      chunk cuts the CDS -/
+  totalCodons : γ → Nat
 
 structure CdsState (γ : Type) where
   core : γ
@@ -184,14 +189,14 @@ def listCodons {γ} (cfg : CdsCfg γ) (s : CdsState γ) : CdsState γ × Nat :=
   match s.codonsMemo with
   | some n => (s, n)
   | none =>
-    let n := (cfg.pathB s.core).length / 3
+    let n := cfg.chunkCodons s.core
     ({ s with flag := true, codonsMemo := some n }, n)
 
 /-- `len(self.chunk_relative_codon_locations)` as `extract_sequence` sees it (the memoised tuple when it exists) -/
 def codonCount {γ} (cfg : CdsCfg γ) (s : CdsState γ) : Nat :=
   match s.codonsMemo with
   | some n => n
-  | none => (cfg.pathB s.core).length / 3
+  | none => cfg.chunkCodons s.core
 
 /-- `if self._chunk_relative_codon_locations_cached is True and self.chunk_relative_codon_locations:` (cds.py:456);
     before the repair the second conjunct was missing -/
@@ -221,6 +226,9 @@ def cdsStep {γ} (cfg : CdsCfg γ) (s : CdsState γ) : CdsOp → CdsState γ × 
   | .numCodons => let r := listCodons cfg s; (r.1, .count r.2)      -- `len(self.chunk_relative_codon_locations)`
   | .extract => extract cfg s
   | .validStop => validStop cfg s
+  -- `num_codons` (cds.py:469-474): `len(self.chromosome_codon_locations)`, a memoised pure function of the constructor
+  -- data that does NOT look at the flag or at the chunk-relative codon memo
+  | .totalCodons => (s, .count (cfg.totalCodons s.core))
 
 def cdsRun {γ} (cfg : CdsCfg γ) : CdsState γ → List CdsOp → CdsState γ × List Ans
   | s, [] => (s, [])
